@@ -11,6 +11,7 @@ import (
 
 	appparams "github.com/chain4energy/c4e-chain/app/params"
 	minttypes "github.com/chain4energy/c4e-chain/x/cfeminter/types"
+	codectypes "github.com/cosmos/cosmos-sdk/codec/types"
 	sdk "github.com/cosmos/cosmos-sdk/types"
 	authtypes "github.com/cosmos/cosmos-sdk/x/auth/types"
 )
@@ -43,6 +44,21 @@ func alignMs(t time.Time) time.Time { return t.Truncate(time.Millisecond) }
 func runC19(c *fw.Case) {
 	mc := gen.Minters(c.R, gen.MintDenom(c.R), 30)
 	mintDenom := mc.Params.MintDenom
+	// every tenth case: linear periods of astronomic size (up to 10^62). Minting still works for
+	// them, the annualised rate no longer fits the decimal type: the minter may then refuse to
+	// report an inflation, but it must not report a wrong one
+	huge := c.Index%10 == 9
+	if huge {
+		f := new(big.Int).Exp(big.NewInt(10), big.NewInt(32), nil)
+		for i, m := range mc.Sorted {
+			if lm, ok := m.Config.GetCachedValue().(*minttypes.LinearMinting); ok {
+				cp := *lm
+				cp.Amount = sdk.NewIntFromBigInt(new(big.Int).Mul(lm.Amount.BigInt(), f))
+				m.Config, _ = codectypes.NewAnyWithValue(&cp)
+				mc.Schedule.Periods[i].Amount = new(big.Int).Mul(mc.Schedule.Periods[i].Amount, f)
+			}
+		}
+	}
 	// pick a period to probe
 	pi := c.R.Intn(len(mc.Schedule.Periods))
 	pStart := mc.Schedule.Start
@@ -195,6 +211,10 @@ func runC19(c *fw.Case) {
 	ctx := n.Ctx()
 	resp, err := n.App.CfeminterKeeper.Inflation(sdk.WrapSDKContext(ctx), &minttypes.QueryInflationRequest{})
 	if err != nil {
+		if huge {
+			c.Count("inflation_refused_for_astronomic_amounts", 1)
+			return
+		}
 		c.Violate("C19/inflation-query-error", "Inflation query failed at %s: %v", fmtTime(t), err)
 		return
 	}
